@@ -108,7 +108,9 @@ PROPS = {
     },
     "C14": {
         "level": "exploration",
-        "explanation": "rechunk: requested chunks and unchanged values over the catalogue; crosswalk and plan contracts under C15",
+        "explanation": "rechunk: requested chunks and unchanged values over the catalogue (bounded); proved pieces: _validate_rechunk, the "
+                       "normalize_chunks forms Rechunk.chunks calls, _get_chunks, and the pushdowns through transpose and expand_dims by "
+                       "record abstraction; crosswalk and plan contracts under C15",
     },
     "C18": {
         "level": "exploration",
